@@ -26,19 +26,34 @@ pub mod clock {
         now: u64,
         waiters: Vec<(u64, u64, StdArc<Aux>)>,
         next: u64,
+        /// first value each thread obtained from `Instant::now()` (harness introspection)
+        first_reads: Vec<(::loom::thread::ThreadId, u64)>,
     }
 
     ::loom::lazy_static! {
-        static ref CLOCK: LMutex<State> = LMutex::new(State { now: 0, waiters: Vec::new(), next: 0 });
+        static ref CLOCK: LMutex<State> = LMutex::new(State { now: 0, waiters: Vec::new(), next: 0, first_reads: Vec::new() });
     }
     ::loom::thread_local! {
         static LAST_READ: ::std::cell::Cell<Option<u64>> = ::std::cell::Cell::new(None);
     }
 
     pub fn now_nanos() -> u64 {
-        let n = CLOCK.lock().unwrap().now;
+        let me = ::loom::thread::current().id();
+        let n = {
+            let mut c = CLOCK.lock().unwrap();
+            let n = c.now;
+            if !c.first_reads.iter().any(|r| r.0 == me) {
+                c.first_reads.push((me, n));
+            }
+            n
+        };
         LAST_READ.with(|c| c.set(Some(n)));
         n
+    }
+
+    /// Harness only: the first `Instant::now()` value thread `t` observed, if any.
+    pub fn first_read_of(t: ::loom::thread::ThreadId) -> Option<u64> {
+        CLOCK.lock().unwrap().first_reads.iter().find(|r| r.0 == t).map(|r| r.1)
     }
 
     /// Instant from which a relative timeout is armed: the calling thread's
